@@ -220,7 +220,9 @@ func scenarioHistory(name string, w *World) *History {
 			txBidCounter(u2, c[3], o("9"), s.memo()),          // not the owner
 			txBidCounter(u0, c[3], o("3"), s.memo()),          // not above the bid
 			txBidOwnerDecision(u0, c[1], bidAccept, s.memo()), // no bid offer is active any more
-		}, "bidcounter c1", "bidcounter c2", "bidcounter c6", "bidcounter notowner", "bidcounter low", "bidownerdecision nobid")
+			txBidCreate(u3, u0.Addr, "bf2.ol", bidOns, o("4"), bidFar, s.memo()), // c3 is active in the committed state
+			txSend(u2, u1.Addr, oltAmt("1000000000000"), s.memo()),
+		}, "bidcounter c1", "bidcounter c2", "bidcounter c6", "bidcounter notowner", "bidcounter low", "bidownerdecision nobid", "bidcreate duplicate-committed", "send")
 		// height 6: further offers
 		s.block([][]byte{
 			txBidOffer(u1, c[1], o("7"), s.memo()),
